@@ -203,6 +203,22 @@ def quantifier_rule(ctx, rid):
             if len(body) == 1 and isinstance(body[0], ast.Return) and isinstance(body[0].value, ast.Constant) and body[0].value.value is True:
                 okk = True
     sel_in_try = any(isinstance(t, ast.Try) and any(isinstance(c, ast.Call) and isinstance(c.func, ast.Attribute) and c.func.attr == "sel" for s_ in t.body for c in ast.walk(s_)) for t in ast.walk(f.node))
+    if okk and not sel_in_try:
+        from ..util import callee_func
+
+        def reaches_sel(fn, node, depth=0):
+            for c in ast.walk(node):
+                if isinstance(c, ast.Call):
+                    if isinstance(c.func, ast.Attribute) and c.func.attr == "sel":
+                        return True
+                    cf = callee_func(ctx, fn, c)
+                    if cf is not None and cf.module is f.module and depth < 3 and reaches_sel(cf, cf.node, depth + 1):
+                        ctx.touch(cf)
+                        return True
+            return False
+        sel_in_try = any(isinstance(t, ast.Try) and any(reaches_sel(f, s_) for s_ in t.body) for t in ast.walk(f.node))
+        if not sel_in_try and not any(isinstance(c, ast.Call) and isinstance(c.func, ast.Attribute) and c.func.attr == "sel" for c in ast.walk(f.node)):
+            raise AnalysisError("idiom changed: is_case_missing does not select the location with .sel (directly or in a helper)")
     if okk and sel_in_try:
         rr.ok("absent coordinates (KeyError from .sel) -> True")
     else:
